@@ -1,15 +1,20 @@
 """C16 — Composite observables evaluate to the same arithmetic on their parts.
 
 Every case is an expression tree over real built-in observables (SigmaX/Y/Z, NeighbourInteraction, SWAP),
-Python scalars (int, float, bool, numpy.float64; 0, negatives) and - in the rejection stream - non-numeric
-operands.  The tree is evaluated bottom-up with the REAL Python operators (operator.neg/add/sub/mul) on the
+Python scalars (int, float, bool, numpy.float64, user subclasses of float / int; 0, negatives, a few large and
+tiny magnitudes) and - in the rejection stream - non-numeric operands.  The tree is evaluated bottom-up with the REAL Python operators (operator.neg/add/sub/mul) on the
 real objects, so Python's own dispatch (__op__ / reflected __rop__) and the library's constructors run.
 
 Oracle (independent of the code under test): a numpy interpreter of the same tree over the leaves' own
 `apply` values; one-pass numpy statistics of those values; a syntactic predicate written here in Python
 saying which trees must be rejected.
-Correspondence: accept/reject verdict, canonical shape of the built object (read from .left/.right of the real
-objects), apply values and statistics vs the extracted Coq model (ObsExpr.build/apply/statistics_from_samples)."""
+Every accepted composite is evaluated on several (state, batch) pairs: the group's state and batch, a second
+state and/or a second batch of another length, and - after all trees of the group were built - once more on the
+same batch after the state's parameters were perturbed IN PLACE (a per-object or content-keyed cache, or stale
+state, would be contradicted).  Some composites are additionally driven through Observable.statistics(...) and
+Observable.sample(...) with a recording wrapper around nn_state.sample (the random chains are recorded, not predicted).
+Correspondence: accept/reject verdict, apply values and statistics vs the extracted Coq model
+(ObsExpr.build/apply/statistics_from_samples); the .left/.right layout is informational only (histogram)."""
 import math, operator, time
 import numpy as np
 import gen
@@ -20,7 +25,12 @@ RULE = ("groups = (state type in positive/complex/density-matrix, nv 2..4, rando
         "(thorough) from three streams: 'linear' (directed grammar producing accepted trees: scalars on either side, "
         "nested -, +, -, *), 'defect' (a linear tree with one injected obs*obs product or non-numeric operand "
         "str/None/list/complex/dict/tuple next to an observable-valued sibling), 'random' (undirected grammar); "
-        "plus direct constructor calls. Scalars: int -5..5, floats, 0, negatives, bool, numpy.float64. "
+        "plus direct constructor calls. Scalars: int -5..5, floats, 0, negatives, bool, numpy.float64, user subclasses of "
+        "float and int, rarely 1e6 / -1e-6 / 10**6. Every accepted composite is applied (and statistics_from_samples taken) on "
+        "the group's (state, batch), on a second state and/or a second batch of another length (1..nmax), and again after an "
+        "in-place perturbation of the state's parameters; per group up to 2 (thorough 3) composites also go through "
+        "Observable.statistics (num_chains 0/2/3/4, burn_in 0..2, steps 1..2, also initial_state=) and Observable.sample with "
+        "recorded chains. "
         "non-trivial := accepted tree with >= 2 operators, >= 1 scalar and >= 1 leaf whose values vary over the batch, "
         "or a rejected tree whose defect sits below at least one other operator")
 ASSUMPTIONS = [
@@ -28,6 +38,11 @@ ASSUMPTIONS = [
     "non-numeric operand combined with a scalar or another non-numeric operand never reaches the library "
     "(Python itself raises or computes it); such sub-trees are not generated and the model maps them to TypeError",
     "numpy.int64 / numpy.float32 / ndarray / tensor operands are outside the property (not int/float subclasses) and not generated",
+    "inf / nan scalars are not generated (the property speaks of real scalars)",
+    "Observable.statistics merges per-draw summaries with _update_statistics; that the merge equals the one-pass summary of "
+    "the concatenation is C13's theorem - here the composite's statistics() is compared with the one-pass summary of the "
+    "interpreter's values on the recorded chains (num_chains != 1)",
+    "'rejected' = any exception at construction; the exception class is recorded in the histogram only",
 ]
 
 OPS = {"add": operator.add, "sub": operator.sub, "mul": operator.mul}
@@ -36,9 +51,21 @@ JUNK_KINDS = ["str", "none", "list", "complex", "dict", "tuple"]
 
 
 # ------------------------------------------------------------------------------------ trees
+class FSub(float):
+    """a user-defined float subclass (isinstance(x, float) holds)"""
+
+
+class ISub(int):
+    """a user-defined int subclass"""
+
+
 def mk_scalar(t, v):
     if t == "int":
         return int(v)
+    if t == "isub":
+        return ISub(v)
+    if t == "fsub":
+        return FSub(v)
     if t == "bool":
         return bool(v)
     if t == "f64":
@@ -51,15 +78,17 @@ def mk_junk(k):
 
 
 def rand_scalar(rng):
-    t = str(rng.choice(["int", "float", "bool", "f64"], p=[0.35, 0.3, 0.1, 0.25]))
-    if t == "int":
-        v = int(rng.choice([0, 1, -1, 2, -2, 3, -3, 5, -5, 4], p=[0.16, 0.1, 0.14, 0.1, 0.1, 0.1, 0.1, 0.05, 0.05, 0.1]))
+    t = str(rng.choice(["int", "float", "bool", "f64", "fsub", "isub"], p=[0.3, 0.25, 0.1, 0.2, 0.08, 0.07]))
+    if t in ("int", "isub"):
+        v = int(rng.choice([0, 1, -1, 2, -2, 3, -3, 5, -5, 4, 10 ** 6], p=[0.16, 0.1, 0.14, 0.1, 0.1, 0.1, 0.1, 0.05, 0.05, 0.08, 0.02]))
     elif t == "bool":
         v = bool(rng.integers(0, 2))
     else:
         u = rng.random()
         if u < 0.1:
             v = 0.0
+        elif u < 0.13:
+            v = float(rng.choice([1e6, -1e-6]))
         elif u < 0.2:
             v = float(rng.choice([0.5, -0.5, 1.0, -1.0, 2.5, -1.5]))
         else:
@@ -208,7 +237,7 @@ def show(t, names):
     if k == "leaf":
         return names[t[1]]
     if k == "const":
-        return {"int": "%d", "bool": "%s", "f64": "np.float64(%r)", "float": "%r"}[t[1]] % (t[2],)
+        return {"int": "%d", "bool": "%s", "f64": "np.float64(%r)", "float": "%r", "fsub": "FSub(%r)", "isub": "ISub(%d)"}[t[1]] % (t[2],)
     if k == "junk":
         return repr(mk_junk(t[1]))
     if k == "neg":
@@ -312,8 +341,22 @@ class SubCtx:
         self._ctx.count(k, n)
 
 
+def leaf_values(leaves, state, samples):
+    """the leaves' own per-sample values on (state, samples) - the inputs of the reference interpreter"""
+    return [np.asarray(o.apply(state, samples.clone()).detach().numpy(), dtype=float).copy() for o in leaves]
+
+
+def make_state(sub, kind, nv, nh, na):
+    if kind == "positive":
+        return gen.make_positive(sub, nv, nh)[0]
+    if kind == "complex":
+        return gen.make_complex(sub, nv, nh)[0]
+    return gen.make_dm(sub, nv, nh, na)[0]
+
+
 def make_group(ctx, gkey):
-    """state + batch + leaf observables + the leaves' own apply values, all determined by gkey"""
+    """state + batch + leaf observables + the leaves' own apply values, all determined by gkey;
+    plus a second state (same type and sizes, other parameters) and a second batch of another length"""
     import torch
     from qucumber.observables import SigmaX, SigmaY, SigmaZ, NeighbourInteraction, SWAP
     sub = SubCtx(ctx, gkey)
@@ -322,12 +365,8 @@ def make_group(ctx, gkey):
     kind = str(rng.choice(["positive", "complex", "dm"]))
     nv = int(rng.integers(2, 5))
     nh = int(rng.integers(1, 4))
-    if kind == "positive":
-        state, _ = gen.make_positive(sub, nv, nh)
-    elif kind == "complex":
-        state, _, _ = gen.make_complex(sub, nv, nh)
-    else:
-        state, _, _ = gen.make_dm(sub, nv, nh, int(rng.integers(1, 3)))
+    na = int(rng.integers(1, 3))
+    state = make_state(sub, kind, nv, nh, na)
     nmax = 12 if ctx.thorough else 8
     n = int(rng.integers(2, nmax + 1))
     samples = torch.tensor(rng.integers(0, 2, size=(n, nv)), dtype=torch.double)
@@ -351,14 +390,101 @@ def make_group(ctx, gkey):
             o = SWAP(A[0] if form == "int" else A)
             names.append("SWAP(%s)" % (A,))
         leaves.append(o)
-    vals = [np.asarray(o.apply(state, samples).detach().numpy(), dtype=float).copy() for o in leaves]
+    vals = leaf_values(leaves, state, samples)
+    # second state / second batch (another length, 1 allowed: apply only)
+    state2 = make_state(sub, kind, nv, nh, na)
+    n2 = int(rng.integers(1, nmax + 1))
+    if n2 == n:
+        n2 = n + 1
+    samples2 = torch.tensor(rng.integers(0, 2, size=(n2, nv)), dtype=torch.double)
+    alts = [("state2,batch1", state2, samples), ("state1,batch2", state, samples2), ("state2,batch2", state2, samples2)]
+    alts = [{"label": lab, "state": st, "samples": sm, "n": int(sm.shape[0]), "vals": leaf_values(leaves, st, sm)}
+            for lab, st, sm in alts]
     return {"kind": kind, "nv": nv, "nh": nh, "n": n, "state": state, "samples": samples,
-            "leaves": leaves, "names": names, "vals": vals, "ids": {id(o): i for i, o in enumerate(leaves)}}
+            "leaves": leaves, "names": names, "vals": vals, "ids": {id(o): i for i, o in enumerate(leaves)},
+            "alts": alts, "perturb_seed": int(rng.integers(0, 2 ** 31 - 1))}
+
+
+def finite_group(g):
+    return all(np.all(np.isfinite(v)) for v in g["vals"]) and all(np.all(np.isfinite(v)) for a in g["alts"] for v in a["vals"])
+
+
+# ------------------------------------------------------------------------------------ evaluation of an accepted composite
+def one_pass(ref):
+    n = len(ref)
+    mean = float(np.mean(ref))
+    var = float(np.sum((ref - mean) ** 2) / (n - 1)) if n > 1 else float("nan")
+    se = math.sqrt(var / n) if n > 1 and var >= 0 else float("nan")
+    return mean, var, se
+
+
+def stats_ok(st, ref, scale):
+    n = len(ref)
+    mean, var, se = one_pass(ref)
+    good = (isinstance(st, dict) and all(k in st for k in ("mean", "variance", "std_error", "num_samples"))
+            and int(st["num_samples"]) == n
+            and abs(float(st["mean"]) - mean) <= 1e-9 * scale
+            and abs(float(st["variance"]) - var) <= 1e-8 * scale * scale
+            and abs(float(st["std_error"]) - se) <= 1e-8 * scale)
+    return bool(good), {"mean": mean, "variance": var, "std_error": se, "num_samples": n}
+
+
+def eval_on(ctx, obj, tree, case, state, samples, vals, label, with_model=True):
+    """apply + statistics_from_samples of the built composite on (state, samples) vs the interpreter over the
+    leaves' own values on the same (state, samples); optionally vs the model.  Returns False when skipped."""
+    import torch
+    case = dict(case, evaluated_on=label)
+    n = int(samples.shape[0])
+    ref, mag = interp(tree, vals)
+    ref = np.broadcast_to(np.asarray(ref, dtype=float), (n,)).copy()
+    scale = float(max(1.0, np.max(mag)))
+    if not np.all(np.isfinite(ref)) or scale > 1e12:
+        ctx.count("skipped_overflow")
+        return False
+    ctx.count("evaluated_on:" + label)
+    ok, out = ctx.call("apply of an accepted composite", case, lambda: obj.apply(state, samples.clone()))
+    if not ok:
+        return True
+    is_batch = isinstance(out, torch.Tensor) and tuple(out.shape) == (n,)
+    ctx.require("apply returns one value per sample", is_batch, case, {"type": type(out).__name__, "shape": list(getattr(out, "shape", []))})
+    if not is_batch:
+        return True
+    got = out.detach().numpy().astype(float)
+    tol = 1e-9 * np.abs(ref) + 1e-9 * scale
+    ctx.require("apply == the same arithmetic on the leaves' per-sample values", bool(np.all(np.abs(got - ref) <= tol)), case,
+                {"impl": got.tolist(), "interpreter": ref.tolist()})
+    mapply = mstats = mpw = None
+    if with_model:
+        r = ctx.get_model().call("c16_eval", enc_tree(tree), [v.tolist() for v in vals], n)
+        if int(r[0]) == 0:
+            mapply, mstats, mpw = r[5], r[6], r[7]
+            if len(mapply) == 2 and int(mapply[0]) == 1:
+                ctx.agree("apply values", got, mapply[1], case, rtol=1e-9, atol=1e-9, scale=scale)
+                ctx.agree("model apply vs model pointwise evaluation (theorem build_apply_is_eval)", mapply[1], mpw, case,
+                          rtol=1e-9, atol=1e-9, scale=scale)
+            else:
+                ctx.agree_exact("model apply returns a batch", True, False, case)
+    if n < 2:
+        ctx.count("batch_of_one:apply_only")     # the sample variance of one value is undefined
+        return True
+    ok, st = ctx.call("statistics_from_samples of an accepted composite", case,
+                      lambda: obj.statistics_from_samples(state, samples.clone()))
+    if ok:
+        good, want = stats_ok(st, ref, scale)
+        ctx.require("statistics == one-pass statistics of the combined per-sample values", good, case,
+                    {"impl": {k: float(v) for k, v in st.items()} if isinstance(st, dict) else repr(st), "one_pass": want})
+        if good and mstats is not None and len(mstats) == 4:
+            ctx.agree("statistics mean", st["mean"], mstats[0], case, rtol=1e-9, atol=1e-9, scale=scale)
+            ctx.agree("statistics variance", st["variance"], mstats[1], case, rtol=1e-8, atol=1e-8, scale=scale * scale)
+            ctx.agree("statistics std_error", st["std_error"], mstats[2], case, rtol=1e-8, atol=1e-8, scale=scale)
+            ctx.agree_exact("statistics num_samples", int(st["num_samples"]), int(mstats[3]), case)
+    return True
 
 
 # ------------------------------------------------------------------------------------ one case
-def run_tree(ctx, g, gkey, tkey, stream, maxd, tree=None, extra=None):
-    """build the tree with real operators, compare with the oracle and with the model"""
+def run_tree(ctx, g, gkey, tkey, stream, maxd, tree=None, extra=None, alt_index=None):
+    """build the tree with real operators, compare with the oracle and with the model.
+    Returns (tree, obj, case) for an accepted composite (so the group can evaluate it again later), else None."""
     from qucumber.observables.observable import ObservableBase
     m = ctx.get_model()
     nleaf = len(g["leaves"])
@@ -390,7 +516,8 @@ def run_tree(ctx, g, gkey, tkey, stream, maxd, tree=None, extra=None):
     if "defect" in info:
         ctx.count("defect:" + info["defect"].split(":")[0] + (":" + info["defect"].split(":")[1] if ":" in info["defect"] else ""))
 
-    # ---- implementation: real operators on real objects
+    # ---- implementation: real operators on real objects.  "rejected" = any exception while building
+    # (the property does not name an exception class; the class only goes into the histogram)
     try:
         obj = real_eval(tree, g["leaves"])
         if isinstance(obj, ObservableBase):
@@ -400,20 +527,18 @@ def run_tree(ctx, g, gkey, tkey, stream, maxd, tree=None, extra=None):
         else:
             status = "other:" + type(obj).__name__
         errkind = None
-    except (TypeError, ValueError) as e:
+    except Exception as e:
         obj, status, errkind = None, "rejected", type(e).__name__
-    except Exception as e:                                      # any other exception kind is not a clean rejection
-        ctx.require("construction raised an unexpected exception kind", False, case, repr(e)[:300])
-        return
+        ctx.count("rejected_with:" + errkind)
     ctx.count("impl:" + status.split(":")[0])
 
     # ---- oracle 1: rejected exactly when the syntactic predicate says so
     ctx.require("rejected exactly the non-linear / non-numeric constructions", (status == "rejected") == want_reject, case,
                 {"impl": status, "errkind": errkind, "predicate_rejects": want_reject})
 
-    # ---- model
+    # ---- model verdict
     r = m.call("c16_eval", enc_tree(tree), [v.tolist() for v in g["vals"]], g["n"])
-    mstat, mrej, mkind, mwf, mshape, mapply, mstats, mpw, mpws = r
+    mstat, mrej, mkind, mwf, mshape = r[0], r[1], r[2], r[3], r[4]
     mstatus = {0: "obs", 1: "scalar", 2: "junkvalue", 3: "rejected", 4: "rejected"}[int(mstat)]
     ctx.agree_exact("accept/reject verdict", status, mstatus, case)
     ctx.agree_exact("model predicate vs harness predicate", bool(mrej), want_reject, case)
@@ -426,137 +551,212 @@ def run_tree(ctx, g, gkey, tkey, stream, maxd, tree=None, extra=None):
         if mstatus == "scalar":
             ctx.agree("folded scalar", float(obj), float(mshape[1]), case)
         ctx.traces += 1
-        return
+        return None
     if status != "obs":
         ctx.traces += 1
-        return
+        return None
 
-    # ---- accepted: shape, apply, statistics
+    # ---- accepted: layout (informational), apply, statistics
     shape = ser_obj(obj, g["ids"])
     if mstatus == "obs":
         ms = canon_model_shape(mshape)
-        if not shape_eq(shape, ms):
-            ctx.count("shape==model" if shape == ms else "shape!=model (informational: .left/.right layout is not part of the property)")
+        ctx.count("layout==model" if shape_eq(shape, ms) else "layout!=model (informational: .left/.right layout is not part of the property)")
         ctx.agree_exact("built object well formed", True, bool(mwf), case)
     if want_reject:
-        return                                                  # already reported above; nothing to evaluate against
-    ref, mag = interp(tree, g["vals"])
-    ref = np.broadcast_to(np.asarray(ref, dtype=float), (g["n"],)).copy()
+        return None                                             # already reported above; nothing to evaluate against
+    if not eval_on(ctx, obj, tree, case, g["state"], g["samples"], g["vals"], "state1,batch1"):
+        return None
+    # a second (state, batch): another state and / or another batch of another length
+    if alt_index is None:
+        alt_index = int(tkey[-1]) % len(g["alts"])
+    a = g["alts"][alt_index]
+    eval_on(ctx, obj, tree, case, a["state"], a["samples"], a["vals"], a["label"])
+    # ... and the first pair once more: the answer must not have been replaced by the second call's
+    if int(tkey[-1]) % 4 == 0:
+        eval_on(ctx, obj, tree, case, g["state"], g["samples"], g["vals"], "state1,batch1 (again)", with_model=False)
+    ctx.traces += 1
+    return (tree, obj, case)
+
+
+# ------------------------------------------------------------------------------------ in-place perturbation pass
+def perturb_params(state, seed):
+    """add noise to every parameter of the state IN PLACE (same objects); returns what is needed to restore.
+    The aux bias of the phase network of a density matrix stays 0 (documented contract)."""
+    import torch
+    gtor = torch.Generator().manual_seed(int(seed))
+    saved = []
+    for net in state.networks:
+        rbm = getattr(state, net)
+        for name, p in rbm.named_parameters():
+            if net == "rbm_ph" and "aux_bias" in name:
+                continue
+            saved.append((p, p.data.clone()))
+            p.data.add_(0.4 * torch.randn(p.data.shape, generator=gtor, dtype=p.data.dtype))
+    return saved
+
+
+def restore_params(saved):
+    for p, old in saved:
+        p.data.copy_(old)
+
+
+def perturbed_pass(ctx, g, kept):
+    """every composite built in this group is applied again to the SAME state object and the SAME batch after the
+    state's parameters changed in place: its value must follow the state (no stale / cached answer)"""
+    if not kept:
+        return
+    saved = perturb_params(g["state"], g["perturb_seed"])
+    try:
+        vals = leaf_values(g["leaves"], g["state"], g["samples"])
+        if not all(np.all(np.isfinite(v)) for v in vals):
+            ctx.count("skipped_nonfinite_leaf(perturbed)")
+            return
+        changed = any(not np.array_equal(x, y) for x, y in zip(vals, g["vals"]))
+        ctx.count("perturbation_changes_a_leaf" if changed else "perturbation_changes_no_leaf")
+        for tree, obj, case in kept:
+            eval_on(ctx, obj, tree, dict(case, mode="perturbed", perturb_seed=g["perturb_seed"]),
+                    g["state"], g["samples"], vals, "state1 perturbed in place,batch1", with_model=False)
+    finally:
+        restore_params(saved)
+
+
+# ------------------------------------------------------------------------------------ statistics(...) / sample(...)
+class RecordingSampler:
+    """instance-level wrapper around nn_state.sample: passes every call through (positional or keyword) and
+    records a copy of each returned batch of chain states (the random outcome is recorded, never predicted)"""
+    def __init__(self, state):
+        self.state, self.log = state, []
+        self.orig = state.sample
+
+    def __enter__(self):
+        def rec(*a, **k):
+            out = self.orig(*a, **k)
+            self.log.append(out.detach().clone())
+            return out
+        self.state.sample = rec
+        return self
+
+    def __exit__(self, *exc):
+        try:
+            del self.state.sample
+        except AttributeError:
+            pass
+        return False
+
+
+def sampling_case(ctx, g, tree, obj, case, skey):
+    """Observable.statistics / Observable.sample of a composite: = one-pass statistics / the arithmetic of the
+    interpreter's values on the chain states that nn_state.sample actually returned"""
+    import torch
+    rng = np.random.Generator(np.random.PCG64(skey))
+    state, leaves = g["state"], g["leaves"]
+    num_samples = int(rng.integers(4, 11))
+    num_chains = int(rng.choice([0, 2, 3, 4]))
+    burn_in = int(rng.integers(0, 3))
+    steps = int(rng.integers(1, 3))
+    form = str(rng.choice(["plain", "initial_state", "sample"], p=[0.5, 0.2, 0.3]))
+    case = dict(case, mode="sampling", skey=list(skey), form=form, num_samples=num_samples, num_chains=num_chains,
+                burn_in=burn_in, steps=steps)
+    torch.manual_seed(int(rng.integers(0, 2 ** 31 - 1)))
+    ctx.count("sampling_form:" + form)
+    with RecordingSampler(state) as rec:
+        if form == "sample":
+            ok, out = ctx.call("Observable.sample of an accepted composite", case,
+                               lambda: obj.sample(state, k=burn_in + 1, num_samples=num_samples))
+        elif form == "initial_state":
+            init = torch.tensor(rng.integers(0, 2, size=(max(2, num_chains), g["nv"])), dtype=torch.double)
+            ok, out = ctx.call("Observable.statistics of an accepted composite", case,
+                               lambda: obj.statistics(state, num_samples, burn_in=burn_in, steps=steps, initial_state=init))
+        else:
+            ok, out = ctx.call("Observable.statistics of an accepted composite", case,
+                               lambda: obj.statistics(state, num_samples, num_chains=num_chains, burn_in=burn_in, steps=steps))
+    if not ok:
+        return
+    if not rec.log:
+        ctx.require("statistics / sample draws its samples from the state", False, case, "nn_state.sample was never called")
+        return
+    chunks = [leaf_values(leaves, state, b) for b in rec.log]
+    vals = [np.concatenate([c[i] for c in chunks]) for i in range(len(leaves))]
+    if form == "sample":
+        vals = [c for c in chunks[-1]]
+    n = len(vals[0])
+    ref, mag = interp(tree, vals)
+    ref = np.broadcast_to(np.asarray(ref, dtype=float), (n,)).copy()
     scale = float(max(1.0, np.max(mag)))
     if not np.all(np.isfinite(ref)) or scale > 1e12:
         ctx.count("skipped_overflow")
         return
-    ok, out = ctx.call("apply of an accepted composite", case, lambda: obj.apply(g["state"], g["samples"].clone()))
-    if not ok:
-        return
-    import torch
-    is_batch = isinstance(out, torch.Tensor) and tuple(out.shape) == (g["n"],)
-    ctx.require("apply returns one value per sample", is_batch, case, {"type": type(out).__name__, "shape": list(getattr(out, "shape", []))})
-    if not is_batch:
-        return
-    got = out.detach().numpy().astype(float)
-    tol = 1e-9 * np.abs(ref) + 1e-9 * scale
-    ctx.require("apply == the same arithmetic on the leaves' per-sample values", bool(np.all(np.abs(got - ref) <= tol)), case,
-                {"impl": got.tolist(), "interpreter": ref.tolist()})
-    if mstatus == "obs" and len(mapply) == 2 and int(mapply[0]) == 1:
-        ctx.agree("apply values", got, mapply[1], case, rtol=1e-9, atol=1e-9, scale=scale)
-        ctx.agree("model apply vs model pointwise evaluation (theorem build_apply_is_eval)", mapply[1], mpw, case,
-                  rtol=1e-9, atol=1e-9, scale=scale)
-    elif mstatus == "obs":
-        ctx.agree_exact("model apply returns a batch", True, False, case)
-
-    ok, st = ctx.call("statistics_from_samples of an accepted composite", case,
-                      lambda: obj.statistics_from_samples(g["state"], g["samples"].clone()))
-    if ok:
-        n = g["n"]
-        mean = float(np.mean(ref))
-        var = float(np.sum((ref - mean) ** 2) / (n - 1))
-        se = math.sqrt(var / n)
-        good = (isinstance(st, dict) and st.get("num_samples") == n
-                and abs(float(st["mean"]) - mean) <= 1e-9 * scale
-                and abs(float(st["variance"]) - var) <= 1e-8 * scale * scale
-                and abs(float(st["std_error"]) - se) <= 1e-8 * scale)
-        ctx.require("statistics == one-pass statistics of the combined per-sample values", bool(good), case,
-                    {"impl": {k: float(v) for k, v in st.items()} if isinstance(st, dict) else repr(st),
-                     "one_pass": {"mean": mean, "variance": var, "std_error": se, "num_samples": n}})
-        if mstatus == "obs" and len(mstats) == 4 and isinstance(st, dict):
-            ctx.agree("statistics mean", st["mean"], mstats[0], case, rtol=1e-9, atol=1e-9, scale=scale)
-            ctx.agree("statistics variance", st["variance"], mstats[1], case, rtol=1e-8, atol=1e-8, scale=scale * scale)
-            ctx.agree("statistics std_error", st["std_error"], mstats[2], case, rtol=1e-8, atol=1e-8, scale=scale)
-            ctx.agree_exact("statistics num_samples", int(st["num_samples"]), int(mstats[3]), case)
+    if form == "sample":
+        good = isinstance(out, torch.Tensor) and tuple(out.shape) == (n,) and \
+            bool(np.all(np.abs(out.detach().numpy().astype(float) - ref) <= 1e-9 * np.abs(ref) + 1e-9 * scale))
+        ctx.require("sample == the same arithmetic on the leaves' values of the drawn samples", good, case,
+                    {"impl": out.tolist() if isinstance(out, torch.Tensor) else repr(out), "interpreter": ref.tolist()})
+        ctx.require("sample draws the requested number of samples", n == num_samples, case, {"drawn": n})
+    else:
+        good, want = stats_ok(out, ref, scale)
+        ctx.require("statistics(...) == one-pass statistics of the combined per-sample values of all drawn samples", good, case,
+                    {"impl": {k: float(v) for k, v in out.items()} if isinstance(out, dict) else repr(out), "one_pass": want,
+                     "draws": [int(b.shape[0]) for b in rec.log]})
+        if good:
+            ms = ctx.get_model().call("c16_eval", enc_tree(tree), [v.tolist() for v in vals], n)
+            if int(ms[0]) == 0 and len(ms[6]) == 4:
+                ctx.agree("statistics(...) mean", out["mean"], ms[6][0], case, rtol=1e-9, atol=1e-9, scale=scale)
+                ctx.agree("statistics(...) variance", out["variance"], ms[6][1], case, rtol=1e-8, atol=1e-8, scale=scale * scale)
     ctx.traces += 1
 
 
+# ------------------------------------------------------------------------------------ direct constructor calls
 def direct_ctor_cases(ctx, g, gkey):
-    """SumObservable / ProdObservable called directly: type checks of both constructors"""
+    """SumObservable / ProdObservable called directly: non-numeric operands and observable*observable are rejected,
+    observable with a scalar is accepted.  (scalar, scalar) is not constrained by the property: not demanded.)"""
     from qucumber.observables.observable import SumObservable, ProdObservable
     m = ctx.get_model()
     a, b = g["leaves"][0], g["leaves"][1]
     operands = [("leaf0", a, [0, 0]), ("leaf1", b, [0, 1]), ("int", 3, [3, 3.0]), ("float", -2.5, [3, -2.5]),
-                ("bool", True, [3, 1.0]), ("f64", np.float64(0.5), [3, 0.5])] + \
+                ("bool", True, [3, 1.0]), ("f64", np.float64(0.5), [3, 0.5]), ("fsub", FSub(1.5), [3, 1.5])] + \
                [("junk:" + k, mk_junk(k), [2]) for k in JUNK_KINDS]
     for cname, ctor, code in (("SumObservable", SumObservable, 0), ("ProdObservable", ProdObservable, 1)):
         for n1, v1, e1 in operands:
             for n2, v2, e2 in operands:
                 has_obs = n1.startswith("leaf") or n2.startswith("leaf")
                 junk = n1.startswith("junk") or n2.startswith("junk")
-                if not has_obs and not junk and cname == "SumObservable":
-                    continue        # SumObservable(scalar, scalar): the property says nothing about it
+                if not has_obs and not junk:
+                    ctx.count("ctor(scalar,scalar): not constrained by the property, skipped")
+                    continue
                 case = {"stream": "ctor", "gkey": list(gkey), "ctor": cname, "o1": n1, "o2": n2}
                 both_obs = n1.startswith("leaf") and n2.startswith("leaf")
-                want = junk or (cname == "ProdObservable" and (both_obs or not has_obs))
+                want = junk or (cname == "ProdObservable" and both_obs)
                 ctx.case({"ctor": cname, "o1": n1, "o2": n2}, nontrivial=False)
                 ctx.count("stream:ctor")
                 try:
                     obj = ctor(v1, v2)
                     status = "obs"
-                except (TypeError, ValueError):
-                    obj, status = None, "rejected"
                 except Exception as e:
-                    ctx.require("constructor raised an unexpected exception kind", False, case, repr(e)[:200])
-                    continue
-                ctx.require("constructor rejects exactly non-numeric operands and non-linear products",
+                    obj, status = None, "rejected"
+                    ctx.count("rejected_with:" + type(e).__name__)
+                ctx.require("constructor rejects exactly non-numeric operands and observable*observable",
                             (status == "rejected") == want, case, {"impl": status, "must_reject": want})
                 r = m.call("c16_ctor", code, e1, e2)
                 mstatus = "obs" if int(r[0]) == 0 else "rejected"
                 ctx.agree_exact("constructor verdict", status, mstatus, case)
                 if status == "obs" and mstatus == "obs":
-                    shape = ser_obj(obj, g["ids"])
-                    ms = canon_model_shape(r[1])
-                    if not shape_eq(shape, ms):
-                        ctx.count("ctor shape==model" if shape == ms else "ctor shape!=model (informational)")
+                    ctx.count("ctor layout==model" if shape_eq(ser_obj(obj, g["ids"]), canon_model_shape(r[1]))
+                              else "ctor layout!=model (informational)")
 
 
 # ------------------------------------------------------------------------------------ driver
 def plan(ctx):
     if ctx.thorough:
-        return {"groups": 1000, "lin": 14, "defect": 7, "rand": 7, "maxd": 6}
-    return {"groups": 150, "lin": 8, "defect": 4, "rand": 4, "maxd": 4}
-
-
-def run_group(ctx, gi, P, base=0):
-    gkey = (ctx.seed, 16, base, gi)
-    g = make_group(ctx, gkey)
-    if not all(np.all(np.isfinite(v)) for v in g["vals"]):
-        ctx.count("skipped_nonfinite_leaf")
-        return
-    # the leaves are deterministic: a second application gives the same values (assumption of the oracle)
-    again = [np.asarray(o.apply(g["state"], g["samples"]).detach().numpy(), dtype=float) for o in g["leaves"]]
-    ctx.require("leaf apply is deterministic", all(np.array_equal(x, y) for x, y in zip(again, g["vals"])),
-                {"stream": "leaf", "gkey": list(gkey)})
-    t = 0
-    for stream, cnt in (("linear", P["lin"]), ("defect", P["defect"]), ("random", P["rand"])):
-        for _ in range(cnt):
-            run_tree(ctx, g, gkey, gkey + (t,), stream, P["maxd"])
-            t += 1
-    if gi % 20 == 10:
-        direct_ctor_cases(ctx, g, gkey)
+        return {"groups": 700, "lin": 14, "defect": 7, "rand": 7, "maxd": 6, "sampling": 3}
+    return {"groups": 100, "lin": 8, "defect": 4, "rand": 4, "maxd": 4, "sampling": 2}
 
 
 FIXED = [  # the forms named in the property / design, always run (leaf 0 = a, leaf 1 = b)
     ["sub", ["leaf", 0], ["leaf", 1]], ["sub", ["leaf", 0], ["const", "int", 3]], ["sub", ["const", "int", 3], ["leaf", 0]],
     ["neg", ["leaf", 0]], ["mul", ["leaf", 0], ["const", "float", 2.5]], ["mul", ["const", "float", 2.5], ["leaf", 0]],
     ["add", ["leaf", 0], ["const", "int", 0]], ["add", ["const", "f64", -1.25], ["leaf", 0]],
+    ["add", ["leaf", 0], ["const", "f64", 0.75]], ["sub", ["leaf", 1], ["const", "f64", 0.75]],
+    ["add", ["leaf", 0], ["const", "fsub", 0.5]], ["sub", ["const", "isub", 2], ["leaf", 1]],
     ["sub", ["leaf", 0], ["const", "bool", True]], ["mul", ["const", "bool", True], ["leaf", 1]],
     ["mul", ["leaf", 0], ["const", "f64", -0.5]], ["sub", ["const", "f64", 2.0], ["leaf", 1]],
     ["mul", ["leaf", 0], ["const", "int", 0]], ["neg", ["neg", ["leaf", 1]]],
@@ -570,25 +770,58 @@ FIXED = [  # the forms named in the property / design, always run (leaf 0 = a, l
 ]
 
 
+def run_group(ctx, gkey, P, fixed=None, ctor=False):
+    """one group: build all trees, evaluate each accepted composite on two (state, batch) pairs, then the
+    in-place perturbation pass over all of them, then statistics(...) / sample(...) on a few"""
+    gkey = tuple(gkey)
+    g = make_group(ctx, gkey)
+    if not finite_group(g):
+        ctx.count("skipped_nonfinite_leaf")
+        return
+    # the leaves are deterministic: a second application gives the same values (assumption of the oracle)
+    again = leaf_values(g["leaves"], g["state"], g["samples"])
+    ctx.require("leaf apply is deterministic", all(np.array_equal(x, y) for x, y in zip(again, g["vals"])),
+                {"stream": "leaf", "gkey": list(gkey)})
+    grp = {"gkey": list(gkey), "P": P, "fixed": fixed is not None, "ctor": bool(ctor)}
+    kept = []
+    t = 0
+    if fixed is not None:
+        for tree in fixed:
+            k = run_tree(ctx, g, gkey, gkey + (t,), "fixed", P["maxd"], tree=tree, extra={"group": grp})
+            if k:
+                kept.append(k)
+            t += 1
+    else:
+        for stream, cnt in (("linear", P["lin"]), ("defect", P["defect"]), ("random", P["rand"])):
+            for _ in range(cnt):
+                k = run_tree(ctx, g, gkey, gkey + (t,), stream, P["maxd"], extra={"group": grp})
+                if k:
+                    kept.append(k)
+                t += 1
+    perturbed_pass(ctx, g, kept)
+    # statistics(...) / sample(...): prefer composites with several operators
+    cand = sorted(kept, key=lambda k: -min(n_ops(k[0]), 3))[:P.get("sampling", 2)]
+    for j, (tree, obj, case) in enumerate(cand):
+        sampling_case(ctx, g, tree, obj, case, gkey + (900 + j,))
+    if ctor:
+        direct_ctor_cases(ctx, g, gkey)
+
+
 def run(ctx):
     P = plan(ctx)
-    g0key = (ctx.seed, 16, 7, 0)
-    g0 = make_group(ctx, g0key)
-    for i, tree in enumerate(FIXED):
-        run_tree(ctx, g0, g0key, g0key + (i,), "fixed", P["maxd"], tree=tree)
-    direct_ctor_cases(ctx, g0, g0key)
+    run_group(ctx, (ctx.seed, 16, 7, 0), P, fixed=FIXED, ctor=True)
     for gi in range(P["groups"]):
-        run_group(ctx, gi, P)
+        run_group(ctx, (ctx.seed, 16, 0, gi), P, ctor=(gi % 20 == 10))
 
 
 def search(ctx, broken, budget):
     """wider oracle sweep when the proof or the correspondence broke"""
     t0 = time.time()
     n0 = len(ctx.failures)
-    P = {"groups": 0, "lin": 12, "defect": 6, "rand": 6, "maxd": 6 if ctx.thorough else 4}
+    P = {"groups": 0, "lin": 12, "defect": 6, "rand": 6, "maxd": 6 if ctx.thorough else 4, "sampling": 2}
     gi = 0
     while time.time() - t0 < budget:
-        run_group(ctx, gi, P, base=1)
+        run_group(ctx, (ctx.seed, 16, 1, gi), P, ctor=(gi == 0))
         gi += 1
         if len(ctx.failures) > n0:
             return ctx.failures[n0]
@@ -596,9 +829,10 @@ def search(ctx, broken, budget):
 
 
 def shrink(ctx, rec):
-    """replace the failing tree by its smallest failing sub-tree / simplification (same group)"""
+    """replace the failing tree by its smallest failing sub-tree / simplification (same group).  Only for failures
+    of the plain per-tree evaluation; perturbed / sampling failures are replayed through their whole group."""
     case = rec.get("case", {})
-    if "tree" not in case or "gkey" not in case:
+    if "tree" not in case or "gkey" not in case or case.get("mode") in ("perturbed", "sampling"):
         return rec
     gkey = tuple(case["gkey"])
     g = make_group(ctx, gkey)
@@ -636,9 +870,15 @@ def shrink(ctx, rec):
 
 def replay(ctx, rec):
     case = rec.get("failing", {}).get("case", {})
-    if case.get("stream") == "ctor" or "tree" not in case:
-        g = make_group(ctx, tuple(case.get("gkey", (ctx.seed, 16, 7, 0))))
-        direct_ctor_cases(ctx, g, tuple(case.get("gkey", (ctx.seed, 16, 7, 0))))
+    grp = case.get("group")
+    if case.get("mode") in ("perturbed", "sampling") and grp:
+        print("replay of group", grp["gkey"], "(", case.get("mode"), "failure of", case.get("expr"), ")")
+        run_group(ctx, tuple(grp["gkey"]), grp["P"], fixed=FIXED if grp.get("fixed") else None, ctor=False)
+        return
+    if case.get("stream") in ("ctor", "leaf") or "tree" not in case:
+        gkey = tuple(case.get("gkey", (ctx.seed, 16, 7, 0)))
+        g = make_group(ctx, gkey)
+        direct_ctor_cases(ctx, g, gkey)
         return
     gkey = tuple(case["gkey"])
     g = make_group(ctx, gkey)
